@@ -1185,3 +1185,14 @@ pub fn replay_main(prop: &dyn Prop, file: &str) -> i32 {
         },
     }
 }
+
+/// The JSON of the case with the given index of a run (regressions, enumerated, then random).
+pub fn print_case(prop: &dyn Prop, tier: Tier, idx: u64) -> String {
+    let list = CaseList::build(prop, tier);
+    let strat = prop.strategy(tier);
+    let case = match case_at(&list, &strat, verif_seed(), prop.id(), idx) {
+        CaseSrc::Fixed(v) => v,
+        CaseSrc::Tree(t) => t.current(),
+    };
+    serde_json::to_string(&case).unwrap()
+}
